@@ -34,3 +34,33 @@ pub fn reset_gauge() {
 pub fn max_gauge() -> u32 {
     MAX_DEPTH.with(|m| m.get())
 }
+
+// Dual-run probe: when enabled, the tokenizer loops call every rule in look-ahead mode
+// immediately before the real call and record any contradiction between the two.
+thread_local! {
+    static PROBE_ON: Cell<bool> = Cell::new(false);
+    static PROBE_CALLS: Cell<u64> = Cell::new(0);
+    static PROBE_LOG: std::cell::RefCell<Vec<String>> = std::cell::RefCell::new(Vec::new());
+}
+
+pub fn set_probe(on: bool) {
+    PROBE_ON.with(|p| p.set(on));
+    PROBE_CALLS.with(|c| c.set(0));
+    PROBE_LOG.with(|l| l.borrow_mut().clear());
+}
+
+pub fn probe_on() -> bool {
+    PROBE_ON.with(|p| p.get())
+}
+
+pub fn probe_call() {
+    PROBE_CALLS.with(|c| c.set(c.get() + 1));
+}
+
+pub fn probe_record(msg: String) {
+    PROBE_LOG.with(|l| l.borrow_mut().push(msg));
+}
+
+pub fn probe_take() -> (u64, Vec<String>) {
+    (PROBE_CALLS.with(|c| c.get()), PROBE_LOG.with(|l| std::mem::take(&mut *l.borrow_mut())))
+}
